@@ -266,6 +266,8 @@ def run(ctx):
     C07.r3_atyp_tables(ctx)      # ... and the bytes that follow the destination in the same frame (the first datagrams) are not eaten by the destination decoder
     C01.r13_no_cancel_and_retry_of_framed_reads(ctx)   # a length prefix / datagram body read that is dropped half-way and retried desynchronises the datagram stream
     C07.r1_port_dependence(ctx)    # a domain-typed initial request is resolved through the same cache: the port is the requested one, not a cached one
+    from . import C01 as _C01f
+    _C01f.r17_fill_loops_write_at_the_cursor(ctx)   # a length prefix or datagram body cut by a frame boundary is reassembled in order
     r1_prefix_agreement(ctx)
     r3_one_to_one(ctx)
     r6_reply_peer(ctx)
